@@ -10,6 +10,18 @@ CLAIMED = {
          "Lean 4 theorems: for every valid/ready schedule and token sequence (induction over the input list) each modelled stream element satisfies accepted = delivered ++ in-flight (no loss/dup/reorder/alteration); compositions by the generic comp_rel theorem. The models are tied to /repo on every run by exhaustive co-exploration of the reachable implementation x model product for small instances and seeded lock-step co-simulation for large ones; a break triggers a scoreboard-driven failing-input search on the real code.",
          "Trusted: Lean kernel + propext/Quot.sound/Classical.choice; theorem statements; harness + driver; litex.gen.sim.core.Evaluator as netlist semantics; Migen (fifo, Record) executed not verified. Models are hand-written; correspondence is complete only for the small instances listed in the evidence (exhaustive:true) and sampled for the large ones.",
          "Lean 4 proof (history-invariant induction) + checked model/implementation correspondence"),
+ "C06": ("DESIGN.md §7.C06",
+         "Lean 4 theorems over every state and input, and by induction over every request/response schedule, for wishbone InterconnectShared and Crossbar of arbitrary size (n masters, m slaves, arbitrary decoders, registered or not): routing to the one matching slave or none, ack/err/read data to the owner only, ownership stable until the owner's cyc drops, terminations seen by a master equal the slave responses to its own strobes, grant within n-1 hand-overs (Migen round robin, both policies). Tied to /repo on every run by exhaustive co-exploration of 80 (quick) / 117 (thorough) small fabrics and seeded 32/64-bit co-simulation with a model-independent protocol monitor.",
+         "Trusted: Lean kernel + propext/Quot.sound/Classical.choice; theorem statements; harness + driver; Evaluator as netlist semantics; Migen RoundRobin executed (and compared exhaustively for n<=4), not verified. Explicit hypotheses: disjoint decoders (C13) and slaves answering only presented strobes. register=True read data is _partial (known finding C06-registered-decoder-0-latency). Timeout is modelled here; its theorems are C11's.",
+         "Lean 4 proof (per-cycle lemmas, potential-function induction for bounded waiting) + checked model/implementation correspondence"),
+ "C17": ("DESIGN.md §7.C17",
+         "Lean 4 theorems over the ten 8b/10b tables regenerated from the repository on every run: invertibility, per-word disparity bookkeeping and invalid detection are checked by the kernel over the whole finite domain (1024 encoder inputs, 1024 decoder inputs) and lifted by induction to symbol sequences of arbitrary length (running disparity +-1 at every boundary and within +-3 inside, no run of six, no false comma among data symbols); the multi-word Encoder for every ce pattern and the stream wrappers for every valid/ready schedule (token-exact round trip), stream DC balance under the no-bubble hypothesis (known finding outside it).",
+         "Trusted: Lean kernel + the three standard axioms; theorem statements; harness and driver packing; Evaluator as netlist semantics. encode1/decode1 are hand transcriptions tied to the SingleEncoder and Decoder netlists by a complete comparison over all inputs; machines tied by exhaustive co-exploration for nwords <= 2 with a 4-symbol alphabet and by sampled co-simulation for nwords 1-4. A table change in /repo breaks a kernel `decide` directly.",
+         "kernel decide over regenerated tables + induction over sequences + history-relation induction for the pipelines + exhaustive function/state-space correspondence"),
+ "C18": ("DESIGN.md §7.C18",
+         "Lean 4 theorems for every data width k >= 1 and every data word: code geometry (least m, check positions = powers of two, cover sets = bit-b positions, k data positions), encoder (syndrome 0, even parity), decoder corrects any single flipped bit including the parity bit with sec iff a data/check bit, flags any two flipped bits with ded=1 and sec=0, and is a wire-through with enable=0. Tied to /repo on every run: geometry helpers for all k in 1..512, netlists exhaustively over all inputs for k <= 6 (quick) / 8 (thorough), all single and sampled/all pair flips on the standard widths up to 128; a break triggers a model-independent round-trip + matrix-Hamming oracle search on the real code.",
+         "Trusted: Lean kernel + the three standard axioms; theorem statements; harness and driver (number<->bit-list conversion proved); Evaluator as netlist semantics. The model is hand-written; the decoder tie is complete only for k <= 8 and sampled words for larger k.",
+         "Lean 4 structural proof (GF(2) linearity of XOR folds, loop/closed-form equalities) + checked model/implementation correspondence"),
 }
 
 REASON_PENDING = "check not built yet in this round (model/theorems in progress); no claim is made"
